@@ -14,7 +14,7 @@ META = {
              '`ro + msg` that is not a MosMergeError for a schema-shaped message; an exception leaving classification '
              'of a well-formed document that is not a MosRoMgrException; any exception leaving a non-strict merge.'),
     'workers': {'quick': 12, 'thorough': 16},
-    'watchdog': {'quick': 300, 'thorough': 1800},
+    'watchdog': {'quick': 600, 'thorough': 3600},
     'assumptions': ['adding a roCreate to a running order, messages missing required tags and non-numeric message '
                     'IDs are outside the claim'],
 }
